@@ -114,6 +114,10 @@ impl Future for Scripted {
             }
             return Poll::Pending;
         }
+        if self.mode == 2 {
+            // scheduled during the very poll in which it completes
+            cx.waker().wake_by_ref();
+        }
         if self.end == 1 {
             std::panic::panic_any(Out::new(&self.stats));
         }
